@@ -185,10 +185,16 @@ def physical_elements(elems, how, junk):
 
 def run_family(rep, acc, kind, elements, boxes, tag, junk, chunk=64, batch=320,
                scalar_boxes=16, scalar_stride=1, oracle_stride=0, classify_stride=0,
-               subtypes=G.SUBTYPES, both_every=4):
-    """one enumeration family: every element x every box, through all forms"""
+               subtypes=G.SUBTYPES, both_every=4, sample=1.0):
+    """one enumeration family: every element x every box, through all forms.
+    sample < 1: only a seeded fraction of the (chunk, box batch) pairs is run (at least one
+    batch per chunk, so every element is exercised); the fraction grows with rep.scale"""
     rng = rep.rng
     nb = len(boxes)
+    sample = min(1.0, sample * float(getattr(rep, 'scale', 1) or 1))
+    if sample < 1:
+        boxes = list(boxes)
+        rng.shuffle(boxes)      # every batch is a seeded cross-section of the family's boxes
     for ci, lo in enumerate(range(0, len(elements), chunk)):
         elems = elements[lo:lo + chunk]
         n = len(elems)
@@ -203,7 +209,12 @@ def run_family(rep, acc, kind, elements, boxes, tag, junk, chunk=64, batch=320,
         inert = np.array([e is None or len(e) == 0 for e in elems], dtype=bool)
         res_by_box = {}
         canon = {}
-        for bj, blo in enumerate(range(0, nb, batch)):
+        starts = list(enumerate(range(0, nb, batch)))
+        if sample < 1:
+            keep = [sb for sb in starts if rng.random() < sample]
+            starts = keep or [rng.choice(starts)]
+            rep.count('sampled_out_batches', len(range(0, nb, batch)) - len(starts))
+        for bj, blo in starts:
             st = subtypes[(ci + bj) % len(subtypes)]
             if st not in arrays:
                 arr = U.build(kind, phys, st, deriv)
@@ -396,47 +407,48 @@ def families(rep, tier):
     # ---- multipoints: all sets of <= 2 grid points
     mps = [None, []] + U.polylines(ev, 2) + [None, []]
     yield 'multipoint', mps, allL if not quick else box_mix(rng, posL, degL, 1377), 'multipoints<=2', \
-        [[1, 1, 3, 3], None, []], dict(oracle_stride=7, scalar_boxes=12)
+        [[1, 1, 3, 3], None, []], dict(oracle_stride=11 if quick else 7, scalar_boxes=12, batch=160, sample=.5 if quick else 1)
     # ---- lines: all polylines of <= 3 vertices (thorough: + 4-vertex sample)
     lines = [None, []] + U.polylines(ev, 3)
     if not quick:
-        extra = [U.flat([rng.choice(P) for _ in range(4)]) for _ in range(12000)]
+        extra = [U.flat([rng.choice(P) for _ in range(4)]) for _ in range(6000)]
         lines += extra
     lbox = box_mix(rng, posL, degL, 24 if quick else 1377, rev_every=8 if quick else 1)
     yield 'line', lines, lbox, 'polylines<=3', [[1, 1, 5, 3], None, []], \
-        dict(oracle_stride=23 if quick else 11, classify_stride=101, scalar_boxes=6 if quick else 12)
+        dict(oracle_stride=37 if quick else 11, classify_stride=101, scalar_boxes=6 if quick else 12,
+             batch=160, sample=1 / 3 if quick else 1, scalar_stride=2 if quick else 1)
     # ---- rings: closed polylines a-b-c-a (incl. degenerate), RingArray
     tri = [U.flat([a, b, c, a]) for a in P for b in P for c in P]
     if quick:
         tri = rng.sample(tri, 384)
     rings = [None, []] + tri
     yield 'ring', rings, box_mix(rng, posL, degL, 60, rev_every=3), 'closed-triangles', [[1, 1, 5, 3, 1, 1], None], \
-        dict(oracle_stride=29, classify_stride=211, scalar_boxes=6)
+        dict(oracle_stride=29, classify_stride=211, scalar_boxes=6, batch=160, sample=.5 if quick else 1)
     # ---- multilines: 1-3 lines of 1-2 vertices, with an empty line among them
     segs = U.polylines(ev, 2)
     ml = [None, [], [[0, 0, 6, 6]], [[0, 0, 6, 6], []], [[], [0, 6, 6, 0]]]
-    for _ in range(900 if quick else 6000):
+    for _ in range(900 if quick else 4000):
         k = rng.choice([1, 2, 2, 3])
         e = [rng.choice(segs) for _ in range(k)]
         if rng.random() < .1:
             e.insert(rng.randrange(len(e) + 1), [])
         ml.append(e)
-    ml += [[U.flat([rng.choice(P) for _ in range(3)]) for _ in range(2)] for _ in range(300 if quick else 2000)]
+    ml += [[U.flat([rng.choice(P) for _ in range(3)]) for _ in range(2)] for _ in range(300 if quick else 1000)]
     yield 'multiline', ml, box_mix(rng, posL[::2] if quick else posL, degL, 60, rev_every=3), 'multilines', [[[1, 1, 5, 3]], None, []], \
-        dict(oracle_stride=31, classify_stride=307, scalar_boxes=6)
+        dict(oracle_stride=31, classify_stride=307, scalar_boxes=6, batch=160, sample=.5 if quick else 1)
 
     # ---- polygons on the 3x3 sub-grid {2,4,6}^2, boxes on 0..8
     R = U.simple_rings([2, 4, 6], (3, 4) if quick else (3, 4, 5))
-    if not quick and len(R) > 4000:
-        R = R[:218] + rng.sample(R[218:], 3000)
+    if not quick and len(R) > 1718:
+        R = R[:218] + rng.sample(R[218:], 1500)
     posP, degP = U.boxes_pos(0, 8), U.boxes_degenerate(0, 8)
     polys = [None, []]
     for k, r in enumerate(R):
         polys.append([U.close(r, cw=False, rot=k)])
         polys.append([U.close(r, cw=True, rot=k + 1)])
     yield 'polygon', polys, box_mix(rng, posP, degP, 40, rev_every=4), 'simple-rings-3x3', \
-        [[[1, 1, 5, 1, 5, 5, 1, 1]], None, []], dict(oracle_stride=3 if quick else 2, classify_stride=53,
-                                                    scalar_boxes=8)
+        [[[1, 1, 5, 1, 5, 5, 1, 1]], None, []], dict(oracle_stride=5 if quick else 2, classify_stride=53,
+                                                    scalar_boxes=8, batch=160, sample=.5 if quick else 1)
     # ---- polygons with one hole: shell around [0,8]^2, hole on the sub-grid, boxes on -1..9
     shells = [[(0, 0), (8, 0), (8, 8), (0, 8)],
               [(0, 0), (4, 0), (8, 0), (8, 8), (0, 8), (0, 4)],
@@ -464,10 +476,9 @@ def families(rep, tier):
                 continue
             holed.append([U.close(shells[0]), U.close(a, cw=True), U.close(b, cw=True)])
     hb = box_mix(rng, posH, degH, 40, rev_every=5)
-    if quick:
-        hb = hb[::2] if rep.seed % 2 else hb[1::2]
     yield 'polygon', [None, []] + holed, hb, 'shell+hole', [[[1, 1, 5, 1, 5, 5, 1, 1]], None, []], \
-        dict(oracle_stride=4 if quick else 2, classify_stride=97, scalar_boxes=8)
+        dict(oracle_stride=6 if quick else 2, classify_stride=97, scalar_boxes=8, batch=160,
+             sample=.5 if quick else 1)
 
     # ---- multipolygons: 1 part, 2 parts (disjoint / touching / overlapping), part inside a hole
     mp = [None, [], [[U.close(R[0])], []]]
@@ -475,12 +486,12 @@ def families(rep, tier):
         if quick and k % 3:
             continue
         mp.append([[U.close(r, cw=bool(k & 1), rot=k)]])
-    for _ in range(300 if quick else 6000):
+    for _ in range(300 if quick else 3000):
         a, b = rng.choice(R), rng.choice(R)
         mp.append([[U.close(a, cw=rng.random() < .5)], [U.close(b, cw=rng.random() < .5)]])
     yield 'multipolygon', mp, box_mix(rng, posP, degP, 40, rev_every=4), 'multipolygon-1-2-parts', \
-        [[[[1, 1, 5, 1, 5, 5, 1, 1]]], None, []], dict(oracle_stride=5 if quick else 3, classify_stride=89,
-                                                      scalar_boxes=8)
+        [[[[1, 1, 5, 1, 5, 5, 1, 1]]], None, []], dict(oracle_stride=8 if quick else 3, classify_stride=89,
+                                                      scalar_boxes=8, batch=160, sample=.5 if quick else 1)
     # nested: big shell with a big hole, second part strictly inside the hole (grid 0..12)
     inner = U.simple_rings([4, 6, 8], (3, 4))
     if quick:
@@ -532,6 +543,8 @@ def run(rep):
                 'same-winding) x boxes on -1..9; multipolygons of 1-2 parts and a part inside a hole; a fixed '
                 'corpus of empty/missing elements; a seeded random stream with random derivations. A case is '
                 'non-trivial when some box separates the elements (some True and some False). '
+                'quick tier: every element of every family is run, against a seeded fraction (1/3 for polylines, '
+                '1/2 otherwise, times rep.scale) of its box batches; thorough tier: all batches. '
                 'evaluations = Coq cases; element_box_pairs in coverage counts (element, box) pairs.')
     acc = Acc()
     t0 = time.time()
@@ -588,7 +601,7 @@ def finish(rep, acc, tier, t0):
 
 def random_stream(rep, acc, tier):
     rng = rep.rng
-    narr = 6 if tier == 'quick' else 60
+    narr = 4 if tier == 'quick' else 60
     for kind in G.KINDS:
         for st in G.SUBTYPES:
             for _ in range(narr):
@@ -649,8 +662,8 @@ def band_stream(rep, acc, tier):
     all agree with the exact model (and oracle); a float32-only difference is the class
     'float32-kernel-rounding'"""
     rng = rep.rng
-    ncfg = 24 if tier == 'quick' else 400
-    for rnd in range(2 if tier == 'quick' else 6):
+    ncfg = 16 if tier == 'quick' else 48
+    for rnd in range(2 if tier == 'quick' else 24):
         cfgs = band_configs(rng, ncfg)
         boxes = [b for c in cfgs for b in c[3]]
         boxes += [U.reorder(b, 1 + k % 3) for k, b in enumerate(boxes[::5])]
